@@ -10,6 +10,7 @@ clause, `VarsIn K (docVars ctx r)` — true by definition for `K := docVars ctx 
 -/
 import AstGrepVerif.Props.C11
 import AstGrepVerif.Lemmas.RuleMatchTotal
+import AstGrepVerif.Lemmas.CoreTotal
 
 set_option linter.unusedSimpArgs false
 set_option linter.unusedVariables false
@@ -178,5 +179,111 @@ example : ∀ fuel, 40 ≤ fuel →
              .has (.not (.pattern (.internal 2 [.metaVar .multiple]) none .signature))
                (.rule (.kind 3)) none] none) ≤ 40 := by decide +kernel
     omega
+
+/-! ## global utilities WITH constraints
+
+The theorems above ask `NoConstraints ctx`.  With the invariant "bound nodes are nodes of the
+document" (`EnvKS`, kept because captured nodes lie in the candidate's subtree:
+`matchPatternEnv_values`) the constraint loop of a global utility runs its constraint rules on
+nodes of the document, and the hypothesis disappears (`Lemmas/RuleTotal.lean`:
+`matchRule_noBad_document'`; `Lemmas/CoreTotal.lean`).  What changes for the caller: the
+environment it passes must bind nodes of the document (`EnvKS K ctx.root.preorder env` instead of
+`EnvK K env`); the empty environment does. -/
+
+/-- `scan_terminates_registry_vars` without `NoConstraints` -/
+theorem scan_terminates_registry_vars_cons (ctx : RCtx) (rank : Name → Nat) (hrank : RegRanked ctx rank)
+    (K : List Name) (r : Rule) (hK : VarsIn K (docVars ctx r))
+    (Kr : Nat) (hr : refsBelow rank Kr r = true) (n : Tree) (hn : n ∈ ctx.root.preorder) (env : Env)
+    (henv : EnvKS K ctx.root.preorder env) (fuel : Nat)
+    (hf : costG (mcost ctx ctx.root.size K.length Kr) ctx.root.size r ≤ fuel) :
+    matchRule ctx fuel r n env ≠ .error .fuel :=
+  matchRule_noBad_document' ctx (· = .fuel) rank hrank K (regPats_of_vars ctx _ K hK.right) Kr r hr
+    (patsAll_of_vars ctx _ K r hK.left) n hn env henv fuel hf .fuel rfl
+
+/-- `scan_total_registry_vars` without `NoConstraints`: the evaluator ends normally -/
+theorem scan_total_registry_vars_cons (ctx : RCtx) (rank : Name → Nat) (hrank : RegRanked ctx rank)
+    (K : List Name) (r : Rule) (hK : VarsIn K (docVars ctx r))
+    (Kr : Nat) (hr : refsBelow rank Kr r = true) (n : Tree) (hn : n ∈ ctx.root.preorder) (env : Env)
+    (henv : EnvKS K ctx.root.preorder env) (fuel : Nat)
+    (hf : costG (mcost ctx ctx.root.size K.length Kr) ctx.root.size r ≤ fuel) :
+    ∃ res, matchRule ctx fuel r n env = .ok res :=
+  matchRule_total_env ctx rank hrank K r hK Kr hr n hn env henv fuel hf
+
+/-- `scan_terminates_registry_doc` without `NoConstraints`: computed rank, computed `K`, empty
+environment — every hypothesis decidable -/
+theorem scan_terminates_registry_doc_cons (ctx : RCtx) (hacyc : RegAcyclicAll ctx) (r : Rule)
+    (Kr : Nat) (hr : refsBelow (regRank ctx) Kr r = true)
+    (n : Tree) (hn : n ∈ ctx.root.preorder) (fuel : Nat)
+    (hf : costG (mcost ctx ctx.root.size (docVars ctx r).length Kr) ctx.root.size r ≤ fuel) :
+    ∃ res, matchRule ctx fuel r n Env.empty = .ok res :=
+  scan_total_registry_vars_cons ctx (regRank ctx) hacyc (docVars ctx r) r (VarsIn.refl _) Kr hr n hn
+    Env.empty (EnvKS.empty _ _) fuel hf
+
+/-- the same for a whole rule core (rule, then its own constraint loop) -/
+theorem scan_total_core_doc (ctx : RCtx) (hacyc : RegAcyclicAll ctx) (core : RuleCore) (Kr : Nat)
+    (hr : coreRefsBelow (regRank ctx) Kr core) (n : Tree) (hn : n ∈ ctx.root.preorder) (fuel : Nat)
+    (hf : coreBound ctx (scanVars ctx core) Kr core ≤ fuel) :
+    ∃ res, matchCore ctx fuel core n Env.empty = .ok res :=
+  matchCore_total_doc ctx (regRank ctx) hacyc (scanVars ctx core) core (VarsIn.refl _) Kr hr n hn
+    fuel hf
+
+/-- `patCtx` with a CONSTRAINED global utility `h := {rule: {pattern: $V}, constraints: {V:
+{matches: a}}}` (the constraint goes through the local `a`, which goes through `b`) -/
+def consCtx : RCtx :=
+  { patCtx with
+    globals := patCtx.globals ++
+      [(['h'], { rule := .pattern (.metaVar (.capture ['V'] true)) none .smart,
+                 constraints := [(['V'], .matches ['a'])] })] }
+
+/-- `all: [{pattern: $Z}, {inside: {matches: h, stopBy: end}}]` -/
+def consRule : Rule :=
+  .all [.pattern (.metaVar (.capture ['Z'] true)) none .ast, .inside (.matches ['h']) .end_ none] none
+
+theorem consCtx_acyclic : RegAcyclicAll consCtx := by decide +kernel
+
+/-- the constrained global utility -/
+def consCoreH : RuleCore :=
+  { rule := .pattern (.metaVar (.capture ['V'] true)) none .smart,
+    constraints := [(['V'], .matches ['a'])] }
+
+/-- the registry really has a constraint -/
+theorem consCtx_has_constraints : ¬ NoConstraints consCtx := by
+  intro h
+  have hl : alookup ['h'] consCtx.globals = some consCoreH := by
+    simp [consCtx, patCtx, alookup, consCoreH]
+  have := h ['h'] consCoreH hl
+  simp [consCoreH] at this
+
+/-- every hypothesis of `scan_terminates_registry_doc_cons` holds: normal outcome from the leaf,
+with every fuel from the bound on, although a global utility carries a constraint -/
+theorem scan_terminates_registry_doc_cons_example : ∀ fuel, 300 ≤ fuel →
+    ∃ res, matchRule consCtx fuel consRule leaf Env.empty = .ok res := by
+  intro fuel hf
+  have hcost : costG (mcost consCtx consCtx.root.size (docVars consCtx consRule).length 3)
+      consCtx.root.size consRule ≤ 300 := by decide +kernel
+  refine scan_terminates_registry_doc_cons consCtx consCtx_acyclic consRule 3 (by decide +kernel) leaf
+    ?_ fuel (by omega)
+  show leaf ∈ root3.preorder
+  simp [root3, mid, leaf, Tree.preorder, Tree.preorderList]
+
+/-- the general form, from an environment that already binds `Z` to a node of the document -/
+theorem scan_terminates_registry_vars_cons_example : ∀ fuel, 300 ≤ fuel →
+    matchRule consCtx fuel consRule leaf ⟨[(['Z'], leaf)], [], []⟩ ≠ .error .fuel := by
+  intro fuel hf
+  have hcost : costG (mcost consCtx consCtx.root.size (docVars consCtx consRule).length 3)
+      consCtx.root.size consRule ≤ 300 := by decide +kernel
+  have hleaf : leaf ∈ consCtx.root.preorder := by
+    show leaf ∈ root3.preorder
+    simp [root3, mid, leaf, Tree.preorder, Tree.preorderList]
+  refine scan_terminates_registry_vars_cons consCtx (regRank consCtx) consCtx_acyclic
+    (docVars consCtx consRule) consRule (VarsIn.refl _) 3 (by decide +kernel) leaf hleaf _
+    ⟨⟨?_, ?_⟩, ?_⟩ fuel (by omega)
+  · intro v hv
+    simp only [keysOf, List.map_cons, List.map_nil, List.mem_singleton] at hv
+    subst hv; decide +kernel
+  · simp [keysOf]
+  · intro kv hkv
+    simp only [List.mem_singleton] at hkv
+    subst hkv; exact hleaf
 
 end AGV.C11
